@@ -98,7 +98,10 @@ def graph_case(draw, max_tasks=8, min_tasks=1, kinds=("cmd", "exp", "group", "co
             elif kind == "signal":
                 oc[str(i)] = {"signal": [1, 2, 9, 15, 11][i % 5] + 0, "sigidx": i}
             else:
-                oc[str(i)] = {"launch": draw(st.sampled_from(["eagain", "enoent"]))}
+                oc[str(i)] = {"launch": draw(st.sampled_from(["eagain", "enoent", "nul"]))}
+    for i, o in oc.items():
+        if o.get("launch") == "nul":
+            tasks[int(i)]["run"] = "tr '\x00' x < in.txt"
     if outcomes != "none":
         # a combine step can fail too: a regular file planted where one of its links must go
         for i, t in enumerate(tasks):
@@ -153,7 +156,9 @@ def layered_case(draw, max_width=4, max_layers=3, jobs=(2, 3, 3, 4, 5), p_fail_d
     oc = {}
     for i in range(1, len(tasks)):
         if draw(st.sampled_from(range(p_fail_den))) == 0:
-            oc[str(i)] = draw(st.sampled_from([{"exit": 10 + i}, {"exit": 10 + i}, {"signal": 9}, {"launch": "eagain"}, {"launch": "enoent"}]))
+            oc[str(i)] = draw(st.sampled_from([{"exit": 10 + i}, {"exit": 10 + i}, {"signal": 9}, {"launch": "eagain"}, {"launch": "enoent"}, {"launch": "nul"}]))
+            if oc[str(i)].get("launch") == "nul":
+                tasks[i]["run"] = "tr '\x00' x < in.txt"
     case["outcomes"] = oc
     tlen = draw(st.sampled_from([0, 10, 20, 40, tape_max]))
     case["tape"] = draw(st.lists(st.sampled_from([0] * (2 * tape_hi) + list(range(1, tape_hi + 1))),
